@@ -130,6 +130,8 @@ def mentioned(spec, e, acc=None):
             stack.append(e[2])
         elif t in ("vsum",):
             acc.update(vec_names(spec, e[1]))
+        elif t == "msum":
+            acc.update(element_names(var_decl(spec, e[1])))
         elif t == "lincomb":
             acc.update(vec_names(spec, e[2]))
         elif t == "dot":
@@ -185,7 +187,7 @@ def params_in(e, acc=None):
 class Model:
     """Real optyx objects for one spec."""
 
-    __slots__ = ("spec", "vars", "params", "elems", "exprs", "cons", "problem", "handles")
+    __slots__ = ("spec", "vars", "params", "elems", "exprs", "cons", "problem", "handles", "last_values")
 
     def __init__(self):
         self.vars = {}
@@ -195,6 +197,7 @@ class Model:
         self.cons = {}
         self.problem = None
         self.handles = {}
+        self.last_values = None
 
 
 def build_model(spec, params_as_constants=False):
@@ -342,6 +345,8 @@ def build_expr(m, e):
         return f(build_expr(m, e[2]))
     if t == "vsum":
         return build_vec(m, e[1]).sum()
+    if t == "msum":
+        return m.vars[e[1]].sum()  # MatrixSum: evaluates, but has no compiler case
     if t == "lincomb":
         return np.array(e[1], dtype=float) @ build_vec(m, e[2])
     if t == "dot":
@@ -512,6 +517,9 @@ def eval_expr(spec, e, pt, pv=None):
         return _FN[e[1]](eval_expr(spec, e[2], pt, pv))
     if t == "vsum":
         return sum(eval_vec(spec, e[1], pt))
+    if t == "msum":
+        d = var_decl(spec, e[1])
+        return sum(pt[mel_name(d, i, j)] for i in range(d["rows"]) for j in range(d["cols"]))
     if t == "lincomb":
         return sum(c * x for c, x in zip(e[1], eval_vec(spec, e[2], pt)))
     if t == "dot":
